@@ -219,6 +219,12 @@ fn classify_front(m: &str) -> &'static str {
         || has("number too small to fit in target type")
         || has("invalid digit found in string")
         || has("number is parsed as an i128 or u128")
+        // DSL: access / byte order / bit order / base type are keywords, so a bad value surfaces
+        // as a syn lookahead error listing exactly the legal keywords.
+        || has("expected one of: `ReadWrite`, `RW`, `ReadOnly`, `RO`, `WriteOnly`, `WO`")
+        || has("expected `LE` or `BE`")
+        || has("expected `LSB0` or `MSB0`")
+        || has("expected one of: `bool`, `uint`, `int`")
     {
         "front_bad_value"
     } else if has("expected ")
@@ -314,5 +320,67 @@ pub fn classify_panic(message: &str) -> &'static str {
         "invalid_ident"
     } else {
         "other"
+    }
+}
+
+#[cfg(test)]
+mod tests {
+    use super::*;
+
+    fn k(m: &str) -> (String, String, Vec<String>, Vec<String>) {
+        let v = classify_error(m);
+        let strs = |x: &Value| x.as_array().unwrap().iter().map(|s| s.as_str().unwrap().to_string()).collect();
+        (v["stage"].as_str().unwrap().into(), v["kind"].as_str().unwrap().into(), strs(&v["names"]), strs(&v["numbers"]))
+    }
+
+    #[test]
+    fn back_end_messages() {
+        assert_eq!(
+            k("The value of variant \"B\" is too high for enum \"En\" in object \"E\" on field \"f\": 9 (max = 3)"),
+            ("pass".into(), "enum_value_too_high".into(), vec!["B".into(), "En".into(), "E".into(), "f".into()], vec!["9".into(), "3".into()])
+        );
+        assert_eq!(
+            k("The register addresses go as low as -200, but the selected address type `i8` only goes down to -128. Choose an address type that can fit the full address range").3,
+            vec!["-200".to_string(), "-128".to_string()]
+        );
+        assert_eq!(k("The buffer addresses go as high as 300, but the selected address type `u8` only goes up to 255. Choose").1, "addr_too_high_buffer");
+        assert_eq!(
+            k("Objects \"A\" and \"B (index: 1)\" use the same address (-7). If this is intended, then allow address overlap on both objects."),
+            ("lir".into(), "address_collision".into(), vec!["A".into(), "B (index: 1)".into()], vec!["-7".into()])
+        );
+        assert_eq!(
+            k("The reset value of ref register \"R\" has the incorrect length. It must be specified as 2 bytes, but now only has 3 elements").3,
+            vec!["2".to_string(), "3".to_string()]
+        );
+        assert_eq!(
+            k("The reset value of register \"R\" has (a) bit(s) specified above the size of the register. While you can specify them, this is likely a mistake and thus not accepted. Keep the bits `12..` all at zero").3,
+            vec!["12".to_string()]
+        );
+        assert_eq!(k("Duplicate field \"A\" found in generated enum \"E\" in object \"O\" on field \"f\"").1, "dup_variant");
+        assert_eq!(k("The device name must be given in PascalCase, e.g. \"FooBar\"").0, "lower");
+        assert_eq!(k("something nobody has seen before").1, "other");
+    }
+
+    #[test]
+    fn front_end_messages() {
+        assert_eq!(k("Ref `x` cannot ref a buffer").1, "front_ref_buffer");
+        assert_eq!(k("Parsing object `x`: Parsing error for 'override': Cannot make refs to 'ref's").1, "front_ref_ref");
+        assert_eq!(k("Parsing object `R2`: Parsing error for 'override': Unexpected key: 'byte_order'").1, "front_override_layout");
+        assert_eq!(k("Parsing object `R2`: Unexpected key: 'byte_orderr'").1, "front_unexpected_key");
+        assert_eq!(k("Field `a` has a non-bool base type and must specify the start and the end address").1, "front_field_needs_range");
+        assert_eq!(k("unexpected end of input, expected curly braces").1, "front_parse");
+        assert_eq!(k("Duplicate global config found: `DefaultByteOrder(LE)`").1, "front_dup_config");
+        assert_eq!(k("Only one cfg attribute is allowed, but 2 are found").1, "front_multi_cfg");
+        assert_eq!(k("Parsing object `x`: Register definition must contain the 'address' field"), ("front".into(), "front_missing_key".into(), vec![], vec![]));
+    }
+
+    #[test]
+    fn panic_sites() {
+        assert_eq!(classify_panic("Refs have been validated already for existance"), "reset_expect_ref");
+        assert_eq!(classify_panic("attempt to multiply with overflow"), "arith_overflow");
+        assert_eq!(classify_panic("attempt to shift left with overflow"), "shift_overflow");
+        assert_eq!(classify_panic("range start index 200 out of range for slice of length 128"), "slice_index");
+        assert_eq!(classify_panic("\"my-reg\" is not a valid Ident"), "invalid_ident");
+        assert_eq!(classify_panic("boom"), "other");
     }
 }
